@@ -256,7 +256,55 @@ def current_tables(F):
         key = "%s::%s" % (G.short(b["impl_self"]), b["name"])
         out[key] = {"ordered": order_sensitive(F, b["path"]), "value": v, "file": b["file"], "line": b["line"],
                     "path": b["path"]}
+    out.update(match_tables(F))
     return out
+
+
+def match_tables(F):
+    """functions that are one `match <string parameter> { "A" | "B" => x, .., _ => d }`: a table literal -> value"""
+    out = {}
+    for b in F.bodies:
+        if "body" not in b or b.get("exp") or b["kind"] not in ("Fn", "AssocFn"):
+            continue
+        if not b["path"].startswith(("fields::", "parser::", "messages::", "headers::", "utils::")):
+            continue
+        body = b["body"]
+        while isinstance(body, dict) and body.get("k") == "block" and not body.get("stmts") and body.get("expr"):
+            body = body["expr"]
+        if not (isinstance(body, dict) and body.get("k") == "match" and len(body.get("arms") or []) >= 3):
+            continue
+        rows = []
+        ok = True
+        for a in body["arms"]:
+            p = a["pat"]
+            ps = p.get("pats") if p.get("k") == "por" else [p]
+            val = a.get("body")
+            while isinstance(val, dict) and val.get("k") == "block" and not val.get("stmts") and val.get("expr"):
+                val = val["expr"]
+            vt = None
+            if isinstance(val, dict) and val.get("k") == "lit":
+                vt = str(val.get("v"))
+            elif isinstance(val, dict) and val.get("k") in ("def", "call") and not [x for x in guards_walk(val) if x.get("k") == "local"]:
+                vt = guards.text(val)
+            if vt is None:
+                ok = False
+                break
+            for q in ps:
+                if q.get("k") == "plit" and isinstance(q.get("v"), str):
+                    rows.append("%s=>%s" % (q["v"], vt))
+                elif q.get("k") in ("_", "bind"):
+                    rows.append("_=>%s" % vt)
+                else:
+                    ok = False
+        if ok and len(rows) >= 4:
+            out["fn:" + b["path"]] = {"ordered": False, "value": sorted(rows), "file": b["file"], "line": b["line"],
+                                      "path": b["path"]}
+    return out
+
+
+def guards_walk(n):
+    from .facts import walk
+    return walk(n)
 
 
 def canon_table(t):
@@ -266,7 +314,7 @@ def canon_table(t):
     return json.dumps(sorted(v, key=lambda x: json.dumps(x)))
 
 
-def v3(rep, F):
+def v3(rep, F, only=None):
     r = rep.rule("V3", "code tables = reviewed reference: every code table of a message type (allowed codes, "
                        "forbidden combinations, prescribed code order) equals the reference table; tables only used "
                        "for membership are compared as sets, tables used with position()/indexing as sequences",
@@ -276,9 +324,16 @@ def v3(rep, F):
         return r
     spec = json.load(open(TABLES))["tables"]
     cur = current_tables(F)
+    if only is not None:
+        r["floor"] = 1
     for k in sorted(set(spec) | set(cur)):
+        if only is not None and not re.search(only, k):
+            continue
         r["instances"] += 1
         if k not in cur:
+            if k.startswith("fn:"):
+                rep.notes.append("V3: %s is no longer a literal match table (rewritten?): not judged" % k)
+                continue
             rep.add(Finding("V3", k, "missing", "code table %s of the reference no longer exists" % k))
             continue
         if k not in spec:
